@@ -130,6 +130,7 @@ def scenario_mono(rng, tier, sid):
             st = P(opd=base, fitted=[(thx, thy)])
             st['opd_real'] = P(opd=base + ramp(amp.shape, kr, kc))['opd']
             st['fit'] = how
+            st['layout'] = rng.choice(('C', 'F', 'T', 'strided'))
             cases.append(dict(meta, rep='fit-' + how, wf=W(), steps=[st, prop], thm='none'))
         # history: fit, add a second ramp to the OPD, fit again - the recorded tilts must add up
         k2r, s2r = pick_k(rng, N, g['qr'], g['dyadic'], allow_int=False)
@@ -185,6 +186,7 @@ def scenario_segmented(rng, tier, sid):
         st = P(opd=base, fitted=ang)
         st['opd_real'] = P(opd=opd_ramp)['opd']
         st['fit'] = how
+        st['layout'] = rng.choice(('C', 'F', 'T', 'strided'))
         cases.append(dict(meta, rep='fit-' + how, wf=W, steps=[st, prop], thm='none'))
     return cases
 
@@ -265,7 +267,7 @@ def dispersive_leaf(ctx, lentil, rng):
         trace[-2] = rng.uniform(-1.0, 1.0)
         lam0 = 600e-9
         disp = [rng.uniform(-1e-9, 1e-9) for _ in range(do - 1)] + [rng.choice((-1, 1)) * rng.uniform(2e-6, 8e-6), lam0]
-        lam = lam0 + rng.uniform(-30e-9, 30e-9)
+        lam = lam0 + rng.choice((-20e-9, 10e-9, 25e-9))        # few wavelengths: different elements meet at the same one
         el = lentil.DispersiveTilt(trace=trace, dispersion=disp)
         xs, ys = rng.uniform(-1e-3, 1e-3), rng.uniform(-1e-3, 1e-3)
         x, y = el.shift(wavelength=lam, xs=xs, ys=ys)
@@ -281,6 +283,25 @@ def dispersive_leaf(ctx, lentil, rng):
             continue
         x0, y0 = x - xs, y - ys
         n += 1
+        # the element must be usable where it is meant to be used: in a propagation it displaces the image exactly as the angular
+        # tilt with the same focal-plane displacement does (a tilt about the x axis displaces along y: Tilt(x=a, y=b) shifts by (-z b, -z a))
+        zf = 2.0
+        dux = max(abs(x0), abs(y0), 1e-9) / 4.3              # the displaced image stays inside the 24 x 24 window
+        pm = lentil.circle((16, 16), 6, antialias=False)
+        pup = lentil.Pupil(amplitude=pm, pixelscale=lam * zf / (dux * 32), focal_length=zf)      # alpha = 1/32: a well-sampled image
+        try:
+            wd = lentil.propagate_dft(lentil.Wavefront(lam) * pup * el, pixelscale=dux, shape=(24, 24), oversample=1)
+            wt = lentil.propagate_dft(lentil.Wavefront(lam) * pup * lentil.Tilt(x=-y0 / zf, y=-x0 / zf), pixelscale=dux, shape=(24, 24), oversample=1)
+            fd, ft = wd.field, wt.field
+            if not np.abs(ft).max() > 0 or not np.allclose(fd, ft, rtol=0, atol=1e-7 * np.abs(ft).max()):
+                ctx.violation({'kind': 'dispersive-leaf', 'trace_order': to, 'dispersion_order': do, 'clause': 'propagated-image-not-displaced-accordingly'},
+                              {'trace': trace, 'dispersion': disp, 'wavelength': lam, 'displacement': [x0, y0]}, case=None)
+                continue
+        except Exception as ex:
+            ctx.violation({'kind': 'dispersive-leaf', 'trace_order': 'higher' if to > 1 else 1, 'dispersion_order': 'higher' if do > 1 else 1,
+                           'clause': 'cannot-be-propagated-' + type(ex).__name__},
+                          {'trace': trace, 'dispersion': disp, 'wavelength': lam, 'error': repr(ex)[:200]}, case=None)
+            continue
         sig = {'kind': 'dispersive-leaf', 'trace_order': to, 'dispersion_order': do}
         if abs(y0 - np.polyval(trace, x0)) > 1e-9 * (1 + abs(y0)):
             ctx.violation(dict(sig, clause='not-on-trace'), {'trace': trace, 'x': x0, 'y': y0, 'trace_at_x': float(np.polyval(trace, x0))}, case=None)
